@@ -12,6 +12,11 @@
 #define AdeptMinimizer_H 1
 
 #include <adept/Optimizable.h>
+#ifdef RJHOGAN_ADEPT_2_VERIF
+#include <cstdio>
+#include <cstring>
+#include <string>
+#endif
 
 namespace adept {
 
@@ -40,6 +45,52 @@ namespace adept {
 
   // Return a C string describing the minimizer status
   const char* minimizer_status_string(MinimizerStatus status);
+
+#ifdef RJHOGAN_ADEPT_2_VERIF
+  // Verification hook H4 (inactive unless a sink is installed): one text
+  // line per decision of the bounded minimizers and of the line search.
+  // Reals are written as the 16 hex digits of their binary64 pattern.
+  namespace internal {
+    extern void (*verif_minimizer_hook)(const char*);
+    class VerifMinLog {
+    public:
+      VerifMinLog(const char* tag) : on_(verif_minimizer_hook != 0) { if (on_) s_ = tag; }
+      ~VerifMinLog() { if (on_ && verif_minimizer_hook) verif_minimizer_hook(s_.c_str()); }
+      bool on() const { return on_; }
+      VerifMinLog& i(long v) {
+	if (on_) { char b[32]; snprintf(b, sizeof b, " %ld", v); s_ += b; }
+	return *this;
+      }
+      VerifMinLog& r(Real v) {
+	if (on_) { s_ += " "; hex(v); }
+	return *this;
+      }
+      VerifMinLog& v(const Vector& a) {
+	if (on_) {
+	  s_ += " v";
+	  for (int k = 0; k < a.size(); ++k) { s_ += (k ? "," : ":"); hex(a(k)); }
+	}
+	return *this;
+      }
+      VerifMinLog& iv(const intVector& a) {
+	if (on_) {
+	  s_ += " i";
+	  for (int k = 0; k < a.size(); ++k) { char b[32]; snprintf(b, sizeof b, "%s%d", (k ? "," : ":"), a(k)); s_ += b; }
+	}
+	return *this;
+      }
+    private:
+      void hex(Real v) {
+	double d = static_cast<double>(v);
+	unsigned long long u;
+	std::memcpy(&u, &d, sizeof u);
+	char b[32]; snprintf(b, sizeof b, "%016llx", u); s_ += b;
+      }
+      bool on_;
+      std::string s_;
+    };
+  }
+#endif
 
   // Return the order of a minimization algorithm: 0 indicates only
   // the cost function is required, 1 indicates the first derivative
